@@ -33,6 +33,7 @@ func main() {
 		replays := fs.String("replays", "replays", "replay directory")
 		out := fs.String("out", "", "summary JSON file")
 		workers := fs.Int("workers", 12, "worker processes")
+		from := fs.Int("from", 0, "first case index")
 		fs.Parse(os.Args[2:])
 		p, ok := jph.Props[*prop]
 		if !ok {
@@ -44,7 +45,7 @@ func main() {
 		}
 		self, _ := os.Executable()
 		sum := jph.RunParent(jph.RunOpts{Prop: *prop, Seed: *seed, Tier: *tier, N: *n, SpecExe: *spec, ImplExe: *impl,
-			ReplayDir: *replays, Self: self, Workers: *workers})
+			ReplayDir: *replays, Self: self, Workers: *workers, From: *from})
 		bs, _ := json.MarshalIndent(sum, "", " ")
 		if *out != "" {
 			os.WriteFile(*out, bs, 0o644)
